@@ -13,9 +13,9 @@ depth 5 (quick; 4 for dirs and mixed) / 6 (thorough; 5 for dirs):
           did_upload(cap2), did_check_healthy (if a cap was returned)} (16);
           forget: DELETE the caps row / the last_upload row of cap1 / cap2 ("we somehow forgot
           where we put the file") (4);  clock += 45 days (1).
-  dirs    7 directory contents (name->cap maps incl. {} and two maps whose naive concatenation
-          collides: {"ab": "c"} / {"a": "bc"}); ops: check_directory(contents) followed by one of
-          {nothing, did_create(dircap1), did_create(dircap2), did_check_healthy} (28); clock (1).
+  dirs    9 directory contents (name->cap maps incl. {}, two maps whose naive concatenation
+          collides: {"ab": "c"} / {"a": "bc"}, a map with one child renamed, the same map listed in another order); ops: check_directory(contents) followed by one of
+          {nothing, did_create(dircap1), did_create(dircap2), did_check_healthy} (36); clock (1).
   mixed   files ops + dirs ops over a reduced menu (interaction of the two on one connection).
 State = full dump of the five tables + model attributes + clock + reference.  Every transition is a
 run of the real code: the first child of each state replays the whole history on ONE connection,
@@ -43,7 +43,7 @@ from allmydata.scripts import backupdb
 
 LEVEL = "model_checking"
 ASSUMPTIONS = [
-    "2 local paths that differ only in letter case, each of size/mtime/ctime from 2 values, 2 file caps, 2 dir caps, 7 directory contents; histories up to depth 5/4 (quick) / 6/5 (thorough); the code has no value-dependent branch besides equality tests and the age thresholds (by inspection)",
+    "2 local paths that differ only in letter case, each of size/mtime/ctime from 2 values, 2 file caps, 2 dir caps, 9 directory contents; histories up to depth 5/4 (quick) / 6/5 (thorough); the code has no value-dependent branch besides equality tests and the age thresholds (by inspection)",
     "os.stat / time.time / random.random are the module-level names of allmydata.scripts.backupdb rebound by the check; random.random returns a per-root constant (quick 0.0; thorough 0.0 and 0.99)",
     "files and directories are explored separately to full depth and together over a reduced menu (the two share only the connection, the clock and the coin)",
     "sibling transitions re-open a byte-identical copy of the parent's database (a new backup run); the first child of each state runs its whole history on one connection",
@@ -65,6 +65,8 @@ CONTENTS = [
     {u"x": CAPS[0], u"y": CAPS[1]},
     {u"ab": b"c"},
     {u"a": b"bc"},
+    {u"w": CAPS[0], u"y": CAPS[1]},          # a sibling of {x, y}: one name differs, same caps in the same order, same last name
+    {u"y": CAPS[1], u"x": CAPS[0]},          # the SAME map as {x, y}, listed in another order
 ]
 
 _BASE = None
@@ -465,6 +467,6 @@ def _run(tier, seed):
 MANIFEST = {
     "engine": "H",
     "technique": "BFS over all operation histories of the real backupdb on an sqlite file, with a most-recent-upload reference stepped alongside",
-    "text": "All histories up to depth 5 (thorough 6) of: attribute changes of two local files (os.stat answered by the check), rename, check_file with/without trusted timestamps followed by nothing / did_upload / did_check_healthy, forgotten caps/last_upload rows, clock jumps, and check_directory / did_create over seven directory contents, run on the real BackupDB_v2; states are merged on the full table dump + model. A returned file cap must be the cap of the path's most recent upload recorded with exactly the current size, mtime, ctime and trusted timestamps; a returned dircap must be the one most recently recorded for exactly the same name-to-cap map.",
+    "text": "All histories up to depth 5 (thorough 6) of: attribute changes of two local files (os.stat answered by the check), rename, check_file with/without trusted timestamps followed by nothing / did_upload / did_check_healthy, forgotten caps/last_upload rows, clock jumps, and check_directory / did_create over nine directory contents, run on the real BackupDB_v2; states are merged on the full table dump + model. A returned file cap must be the cap of the path's most recent upload recorded with exactly the current size, mtime, ctime and trusted timestamps; a returned dircap must be the one most recently recorded for exactly the same name-to-cap map.",
     "note": "os/time/random are rebound inside allmydata.scripts.backupdb. Files and directories are explored separately to full depth and jointly over a reduced menu. Sibling transitions re-open a byte copy of the parent database. Missing reuse and should_check deviations are only counted (the statement is an 'only when'). Every transition is an implementation run.",
 }
